@@ -188,6 +188,16 @@ fn cons_owned<C: CI, const K: usize, S: KS>(ctx: &mut Ctx) {
                 Err(pm) => check!(ctx, false, format!("Kmer::try_from(Seq)|{name}|panics"), "{name} K={K}: panicked {pm}"),
             }
         }
+        // a k-mer equals its own text and no text of another length (prefix, extension, empty)
+        let codes = rand_codes(&mut ctx.rng, a, K);
+        let t = a.text(&codes);
+        if t.is_ascii() {
+            ctx.eval();
+            let k = Kmer::<C, K>::try_from(&mk::<C>(&codes)[..]).unwrap();
+            let longer = format!("{t}{}", &t[..1]);
+            let r = observe(|| (k == t.as_str(), k == &t[..K - 1], k == longer.as_str(), k == "", k != t.as_str()));
+            check!(ctx, r == Ok((true, false, false, false, false)), format!("Kmer==&str|{name}|other-length"), "{name} K={K}: k-mer {t:?} == its text / its prefix / its extension / \"\" / != its text: {:?}", r);
+        }
         let _ = S::NAME;
         cell!(ctx, "{name}/from-owned/K{K}");
     });
